@@ -269,6 +269,19 @@ pub fn pairs() -> &'static Vec<Pair> {
     static P: OnceLock<Vec<Pair>> = OnceLock::new();
     P.get_or_init(|| {
         let mut out: Vec<Pair> = KNOWN.iter().map(|(h, a, b)| Pair { how: h.to_string(), a: a.to_string(), b: b.to_string() }).collect();
+        // names (and, as literals, texts) that agree in their first N characters — or in all but one character somewhere —
+        // for N around every length at which an implementation might stop looking
+        for n in [7usize, 8, 15, 16, 31, 32, 63, 64, 127, 128, 255, 256, 1023, 1024, 4095, 4096, 65_535, 65_536, 70_000] {
+            let stem: String = (0..n).map(|k| (b'a' + (k % 26) as u8) as char).collect();
+            out.push(Pair { how: format!("equal-prefix-of-{}", n), a: format!("{}a", stem), b: format!("{}b", stem) });
+            out.push(Pair { how: format!("equal-suffix-of-{}", n), a: format!("a{}", stem), b: format!("b{}", stem) });
+            if n >= 15 {
+                let mut m1: Vec<char> = stem.chars().collect();
+                m1[n / 2] = 'X';
+                out.push(Pair { how: format!("one-character-in-the-middle-of-{}", n), a: stem.clone(), b: m1.into_iter().collect() });
+                out.push(Pair { how: format!("one-character-longer-than-{}", n), a: stem.clone(), b: format!("{}a", stem) });
+            }
+        }
         let mut r = Rng::new(0x5eed_c011);
         let mut words: Vec<String> = vec![];
         let mut seen = std::collections::HashSet::new();
